@@ -35,6 +35,18 @@ CHECKS = {
    note="Trusted: projection by id(); tagged parameters are 'weight' (4,4) in the structural replay (Adam factor 1/2) so that in-place scaling of a caller tensor is visible; zero-gradient step compared at 1e-12.",
    technique="TLA+ loop state machine with heap cells + TLC; replay of TLC-emitted inputs; real optimizer steps",
    design="4/C11"),
+ "C07": dict(
+   spec="spec/ResidualRule.tla, ResidualRule_MC.tla, ResidualRule_Eval.tla, Rat.tla",
+   text="The rule is specified in exact rationals of squared quantities; TLC checks the one-step lemma (1+tau_i^2) S_i = S_{i+1} for every branch index of every depth (quick: 14 depths up to 256 layers; thorough: all 1..256) x the 8x8 (mult, ratio) grid, the telescoped totals (sum of squared contributions = 1, attention:MLP = ratio^2, mean layer/embedding = mult^2) and explicit contribution products for depths <= 6, and refutes an off-by-one and a parity-swap deviation. TLC then emits tau^2 for every (mult, ratio, depth, index) and the harness compares the real rule (fresh objects, one shared rule object queried for random depth histories) and the taus wired into TransformerStack/TransformerDecoder built for several depths in random order.",
+   note="Trusted: float64 tau squared vs the spec's rational at 1e-12. The induction from the one-step lemma to the product identities is checked explicitly only for depths <= 6.",
+   technique="TLA+ rational-arithmetic spec + TLC (lemma over all depths); replay of TLC-emitted tau^2 against the real rule and stacks",
+   design="4/C07"),
+ "C12": dict(
+   spec="spec/Optim.tla (UpdateSize2, OutScale2, LrFactor2), Optim_MC.tla, Optim_Eval.tla",
+   text="The cross-module identity (forward scale of the layer) x (learning-rate factor of its tag) x (number of summed terms) = 1/sqrt(depth) is an invariant of Optim_MC over all small shapes (WidthIndependent). For seeded configurations (widths to 4096, kernels 1-9, depth None/1..64) TLC evaluates UpdateSize2 and the harness performs one real Adam/AdamW step (eps=0, float64, +-1 inputs, zero-free upstream gradient) on real Linear/LinearReadout/Conv1d layers and compares the move of every output coordinate with eta*sqrt(UpdateSize2) at 1e-9.",
+   note="Trusted: torch Adam semantics with eps=0; depth d realised by a DepthSequential of d layers.",
+   technique="TLA+ identity checked by TLC + replay of TLC-evaluated expectations on real optimizer steps",
+   design="4/C12"),
 }
 CHECKS = dict(sorted(CHECKS.items()))
 
